@@ -1186,6 +1186,15 @@ impl FunctionCompiler<'_> {
                                         associated_param: param,
                                     });
                                 }
+                                // every vararg parameter after this one was also left empty
+                                // (`f :: (a: ...i8, b: ...bool)` called as `f()`)
+                                for param in params_iter.by_ref() {
+                                    assert!(param.varargs, "an error should have been reported");
+                                    actual_args.push(ArgToCompile {
+                                        values: Vec::new(),
+                                        associated_param: param,
+                                    });
+                                }
                                 break; // break without reporting error
                             }
 
